@@ -40,13 +40,13 @@ GDo(o) == /\ hist' = Append(hist, StepRec(St, o))
           /\ LET a == Apply(St, o, {}) IN present' = a.s.present /\ rec' = a.s.rec /\ dir' = a.s.dir
           /\ UNCHANGED <<links, dag0>>
 Beh(h) == [n |-> N, links |-> dag0.links, present |-> dag0.present, steps |-> h]
-\* state-graph cover: the steps before the last two were the last steps of other behaviours; they keep
+\* state-graph cover: the steps before the last one were the last steps of other behaviours; they keep
 \* only the result and the pin/block state (enough to notice where the real state leaves the history)
 SlimE(e)  == [res |-> e.res, obs |-> [rkeys |-> e.obs.rkeys, dkeys |-> e.obs.dkeys, present |-> e.obs.present]]
 Slim(st)  == [o |-> st.o, exp |-> SlimE(st.exp),
               alts |-> {[devs |-> a.devs, exp |-> SlimE(a.exp), samestate |-> a.samestate] : a \in {x \in st.alts : ~x.samestate}}]
 BehSG(h)  == [n |-> N, links |-> dag0.links, present |-> dag0.present,
-              steps |-> [i \in 1..Len(h) |-> IF i + 2 <= Len(h) THEN Slim(h[i]) ELSE h[i]]]
+              steps |-> [i \in 1..Len(h) |-> IF i < Len(h) THEN Slim(h[i]) ELSE h[i]]]
 
 GInit == /\ Init /\ hist = <<>>
          /\ dag0 = [links |-> links, present |-> present]
